@@ -26,15 +26,19 @@ func waitBaton(t *thread) {
 	runtime.RaceEnable()
 }
 
-var raceCells = map[uint64]*[8]byte{}
+var (
+	raceIndex u64map // object id -> index+1 into raceCells
+	raceCells []*[8]byte
+)
 
 func cell(obj uint64) unsafe.Pointer {
-	c := raceCells[obj]
-	if c == nil {
-		c = new([8]byte)
-		raceCells[obj] = c
+	i := raceIndex.get(obj)
+	if i == 0 {
+		raceCells = append(raceCells, new([8]byte))
+		i = uint64(len(raceCells))
+		raceIndex.set(obj, i)
 	}
-	return unsafe.Pointer(c)
+	return unsafe.Pointer(raceCells[i-1])
 }
 
 func RaceAcquire(obj uint64)      { runtime.RaceAcquire(cell(obj)) }
